@@ -116,14 +116,26 @@ func genC13(p *Plan, r *RNG) {
 			p.Ops = append(p.Ops, Op{Actor: "app", Kind: "readfrom", At: g})
 			readers++
 		case w < 62:
-			p.Ops = append(p.Ops, Op{Actor: "srv", Kind: "srv_data", At: g, A: OpArgs{Peer: peer, Len: r.Range(9, 300)}})
+			o := Op{Actor: "srv", Kind: "srv_data", At: g, A: OpArgs{Peer: peer, Len: r.Range(9, 300)}}
+			if r.Chance(1, 6) {
+				o.A.Content = r.Pick([]string{"stunlike", "stunvalid", "chanlike", "cookie0", "zero"})
+				o.A.Len = r.PickInt([]int{4, 8, 16, 20, 24, 100})
+			}
+			p.Ops = append(p.Ops, o)
 		case w < 74:
 			// ChannelData on the numbers the client hands out (0x4000, 0x4001, ...) or an unknown one
 			ch := 0x4000 + r.Intn(np)
 			if r.Chance(1, 5) {
 				ch = r.PickInt([]int{0x4100, 0x7FFF, 0x5000})
 			}
-			p.Ops = append(p.Ops, Op{Actor: "srv", Kind: "srv_chandata", At: g, A: OpArgs{Chan: ch, Len: r.Range(9, 300)}})
+			o := Op{Actor: "srv", Kind: "srv_chandata", At: g, A: OpArgs{Chan: ch, Len: r.Range(9, 300)}}
+			if r.Chance(1, 4) {
+				// payloads that look like something else: whatever is inside a ChannelData frame
+				// or a DATA attribute is the application's
+				o.A.Content = r.Pick([]string{"stunlike", "stunvalid", "chanlike", "cookie0", "zero"})
+				o.A.Len = r.PickInt([]int{4, 8, 16, 20, 24, 100})
+			}
+			p.Ops = append(p.Ops, o)
 		case w < 82:
 			p.Ops = append(p.Ops, Op{Actor: "app", Kind: "set_deadline", At: g, A: OpArgs{DurNS: r.PickI64([]int64{1, ms, 500 * ms, 3 * sec, 60 * sec, -sec})}})
 		case w < 86:
@@ -146,6 +158,9 @@ func genC13(p *Plan, r *RNG) {
 	p.Ops = append(p.Ops, Op{Actor: "app", Kind: "bind_txn", At: gap(2 * sec), A: OpArgs{Flags: []string{"probe"}}})
 	if r.Chance(1, 5) {
 		cls := r.Pick([]string{"log:*", "lock", "rlock", "unlock", "sock:client:WriteTo"})
+		if p.Cfg.Extra["stream"] == 1 && cls == "sock:client:WriteTo" {
+			cls = "sock:client:Write"
+		}
 		p.Stalls = append(p.Stalls, Stall{M: Match{Class: cls, Args: "*", Nth: r.Range(1, 40)}, ParkNS: r.PickI64([]int64{0, 1, ms, 250 * ms, 3 * sec})})
 	} else if r.Chance(1, 3) {
 		// directed: one particular application call is parked at one of its first seams and the
@@ -159,6 +174,9 @@ func genC13(p *Plan, r *RNG) {
 		if len(idx) > 0 {
 			i := idx[r.Intn(len(idx))]
 			cls := r.Pick([]string{"lock", "rlock", "unlock", "runlock", "log:*", "sock:client:WriteTo"})
+			if p.Cfg.Extra["stream"] == 1 && (cls == "sock:client:WriteTo" || r.Chance(1, 3)) {
+				cls = "sock:client:Write" // over a stream the socket seam is the connection's Write
+			}
 			park := r.PickI64([]int64{ms, 50 * ms, 700 * ms, 3 * sec})
 			p.Stalls = append(p.Stalls, Stall{M: Match{Class: cls, Args: "*", Nth: r.Range(1, 6)}, ParkNS: park, AfterOp: i + 1})
 			for j, k := i+1, r.Range(1, 3); j < len(p.Ops) && k > 0; j, k = j+1, k-1 {
